@@ -1,0 +1,96 @@
+//! C28: expose the crate-private credential soft lock (`CredSoftLock`), the server's
+//! per-credential lock table (read-only peek) and two crate-private constructors the
+//! harness needs to drive the real authentication paths.
+
+use crate::credential::softlock::{CredSoftLock, CredSoftLockPolicy};
+use crate::credential::totp::Totp;
+use crate::credential::Credential;
+use crate::idm::event::UnixUserAuthEvent;
+use crate::idm::server::IdmServerAuthTransaction;
+use crate::prelude::*;
+use time::OffsetDateTime;
+
+/// (kind, count, reset_at, unlock_at, last_expire_at); kind 0 = Init, 1 = Locked, 2 = Unlocked.
+pub type HookLockState = (u8, usize, Duration, Duration, Duration);
+
+/// Thin public wrapper around the real `CredSoftLock`.
+pub struct HookSoftLock(CredSoftLock);
+
+impl HookSoftLock {
+    pub fn new(policy: CredSoftLockPolicy) -> Self {
+        HookSoftLock(CredSoftLock::new(policy))
+    }
+
+    pub fn with_state(policy: CredSoftLockPolicy, st: HookLockState) -> Self {
+        HookSoftLock(CredSoftLock::verif_with_state(
+            policy, st.0, st.1, st.2, st.3, st.4,
+        ))
+    }
+
+    pub fn apply_time_step(&mut self, ct: Duration, expire_at: Option<Duration>) {
+        self.0.apply_time_step(ct, expire_at)
+    }
+
+    pub fn is_valid(&self) -> bool {
+        self.0.is_valid()
+    }
+
+    pub fn record_failure(&mut self, ct: Duration) {
+        self.0.record_failure(ct)
+    }
+
+    pub fn peek(&self) -> HookLockState {
+        self.0.verif_peek()
+    }
+}
+
+/// The real `CredSoftLockPolicy::failure_next_state` as (kind, count, reset_at, unlock_at).
+pub fn failure_next_state(
+    policy: &CredSoftLockPolicy,
+    count: usize,
+    ct: Duration,
+) -> (u8, usize, Duration, Duration) {
+    CredSoftLock::verif_failure_next_state(policy, count, ct)
+}
+
+/// Read-only look at the server's soft lock of one credential (None: no lock exists yet,
+/// or it is held by another task).
+pub fn server_softlock_peek(
+    auth: &IdmServerAuthTransaction<'_>,
+    cred_uuid: Uuid,
+) -> Option<HookLockState> {
+    let softlock_read = auth.softlocks.read();
+    softlock_read
+        .get(&cred_uuid)
+        .and_then(|m| m.try_lock().ok().map(|g| g.verif_peek()))
+}
+
+/// The crate-private credential id (the key of the soft lock table).
+pub fn cred_uuid(cred: &Credential) -> Uuid {
+    cred.uuid
+}
+
+/// The soft lock policy the server derives for a credential.
+pub fn cred_softlock_policy(cred: &Credential) -> CredSoftLockPolicy {
+    cred.softlock_policy()
+}
+
+/// `Credential::append_totp` (crate-private): a password credential with a TOTP added.
+pub fn cred_append_totp(cred: &Credential, label: &str, totp: Totp) -> Credential {
+    cred.append_totp(label.to_string(), totp, OffsetDateTime::UNIX_EPOCH)
+}
+
+/// `UnixUserAuthEvent` with the internal identity (the constructor is test-only upstream).
+pub fn unix_auth_event(target: Uuid, cleartext: &str) -> UnixUserAuthEvent {
+    UnixUserAuthEvent {
+        ident: Identity::from_internal(),
+        target,
+        cleartext: cleartext.to_string(),
+    }
+}
+
+/// A password-only credential with the cheapest hashing parameters (as the crate's own tests use).
+pub fn cred_new_password(cleartext: &str) -> Credential {
+    let p = kanidm_lib_crypto::CryptoPolicy::minimum();
+    Credential::new_password_only(&p, cleartext, OffsetDateTime::UNIX_EPOCH).expect("credential")
+}
